@@ -209,6 +209,17 @@ def _run_job(arg: tuple[Callable[[dict], dict], dict]) -> dict:
                            f"{type(e).__name__}: {e}\n{traceback.format_exc()}") from None
 
 
+def library_raise_signature(e: BaseException) -> dict | None:
+    """{clause: library-raises, exc, site} if the innermost frame of e's traceback is library code (ramses_tx / ramses_rf), else None."""
+    tb = traceback.extract_tb(e.__traceback__)
+    if not tb:
+        return None
+    fn = tb[-1].filename.replace("\\", "/")
+    if "/ramses_tx/" not in fn and "/ramses_rf/" not in fn:
+        return None
+    return {"clause": "library-raises", "exc": type(e).__name__, "site": f"{fn.rsplit('/', 1)[-1]}:{tb[-1].name}"}
+
+
 # --- Hypothesis glue ------------------------------------------------------------
 
 
@@ -243,6 +254,17 @@ def hyp_explore(strategy: Any, body: Callable[[Any], None], n: int, seed: int, *
             if CURRENT is not None:
                 CURRENT.violation({"clause": "thread-blocked", "how": "wall-clock watchdog"}, ex, "the library blocked the event loop's thread (no progress at one line and one virtual instant)")
             raise StopExploration() from None
+        except (StopExploration, HarnessError):
+            raise
+        except Exception as e:  # noqa: BLE001
+            # Safety net. An exception that LIBRARY code raised out of a call the check makes as a matter of course (i.e. one the
+            # module's own oracle did not expect and catch) means the library broke something the check relies on while judging this
+            # case: that is reported as a violation under its root cause, not as a crash of the machinery. Exceptions raised by the
+            # machinery's own code stay harness errors (exit 2).
+            sig = library_raise_signature(e)
+            if sig is None or CURRENT is None:
+                raise
+            CURRENT.violation(sig, ex, f"{type(e).__name__}: {e} (raised by the library through a call the check does not expect to fail)"[:400])
 
     try:
         _t()
